@@ -56,15 +56,18 @@ def obs_vector(cls, v):
         o = cls(v)
     except Exception as e:  # noqa
         return ["EXC", type(e).__name__, msg(e), [c.__name__ for c in type(e).__mro__[:3]]]
-    out = ["OK", o.scores(), o.severities(), o.clean_vector(), o.rh_vector()]
-    if hasattr(o, "temporal_vector"):
-        out += [o.temporal_vector(), o.environmental_vector()]
-    for s in (False, True):
-        for m in (False, True):
-            d = o.as_json(sort=s, minimal=m)
-            out.append(J(d))
-            if s:
-                out.append(list(d.keys()))
+    try:
+        out = ["OK", o.scores(), o.severities(), o.clean_vector(), o.rh_vector()]
+        if hasattr(o, "temporal_vector"):
+            out += [o.temporal_vector(), o.environmental_vector()]
+        for s in (False, True):
+            for m in (False, True):
+                d = o.as_json(sort=s, minimal=m)
+                out.append(J(d))
+                if s:
+                    out.append(list(d.keys()))
+    except Exception as e:  # noqa - an accessor failing on a constructed object is an observation too
+        return ["ACCESSOR-EXC", type(e).__name__, msg(e)]
     return out
 
 
